@@ -9,6 +9,8 @@ pub mod props;
 pub mod refat;
 pub mod scen;
 pub mod selftest;
+pub mod simcard;
 pub mod simdisk;
+pub mod spimon;
 pub mod util;
 pub mod world;
